@@ -6,7 +6,7 @@ use crate::case::{self, BytesSpec, Case, Cfg, GenParams, Op};
 use crate::driver::{hash_bytes, Backend, Driver, Outcome, Stores, TempDir, Via};
 use crate::engine::{self, CheckResult, Fail, Report, Stats, Tier};
 use crate::hist::{client_meta, Hist, Oracles};
-use crate::model::{allowed_urgency, MClient, SnapPred};
+use crate::model::{allowed_urgency, AvPred, GcPred, MClient, SnapPred};
 use crate::sched::{drive, Gates, Msg, RunLog, SchedStorage, SchedulerCfg};
 use proptest::prelude::*;
 use serde::{Deserialize, Serialize};
@@ -66,6 +66,10 @@ pub struct CCase {
     pub batch: Vec<Vec<BReq>>,
     pub choices: Vec<u16>,
     pub probes: Vec<bool>,
+    /// per thread: true = the thread's requests are a second client's (client 1 of the prefix);
+    /// empty = all threads act for client 0
+    #[serde(default)]
+    pub second: Vec<bool>,
 }
 
 fn v<T>(m: String) -> Result<T, Fail> {
@@ -78,6 +82,8 @@ pub struct Exec {
     /// per thread, per request: (resolved id argument, payload, outcome)
     pub results: Vec<Vec<(Uuid, Arc<Vec<u8>>, Outcome)>>,
     pub start: MClient,
+    /// the second client's model before the batch (only with `CCase::second`)
+    pub start2: MClient,
     pub hist: Hist,
 }
 
@@ -102,7 +108,8 @@ pub fn execute(cc: &CCase) -> Result<Exec, Fail> {
     };
     let backend = if cc.conf == Conf::Mem { Backend::Mem } else { Backend::Sqlite };
     // prefix: sequential, free running, through an ordinary driver on the same backend
-    let pcase = Case { cfg: cc.cfg.clone(), salt: 3, nclients: 1, ops: cc.prefix.clone() };
+    let two = cc.second.iter().any(|b| *b);
+    let pcase = Case { cfg: cc.cfg.clone(), salt: 3, nclients: if two { 2 } else { 1 }, ops: cc.prefix.clone() };
     let inner0 = inner_for(n).map_err(sv)?;
     let probe0 = inner0.clone();
     let drv0 = Driver::with_factory(backend, cc.via, &cc.cfg, None, Box::new(move || Ok(Stores { served: inner0.clone(), probe: probe0.clone() })), None).map_err(sv)?;
@@ -127,8 +134,19 @@ pub fn execute(cc: &CCase) -> Result<Exec, Fail> {
         .map_err(|e| Fail::Violation(format!("creating the client record: {e:#}")))?;
         hist.model.client_mut(c).exists = true;
     }
+    let c2 = if two { hist.clients[1] } else { c };
+    if two && cc.via == Via::Lib && !hist.model.client(c2).exists {
+        (|| -> anyhow::Result<()> {
+            let mut t = hist.drv.storage.txn(c2)?;
+            t.new_client(Uuid::nil())?;
+            t.commit()
+        })()
+        .map_err(|e| Fail::Violation(format!("creating the client record: {e:#}")))?;
+        hist.model.client_mut(c2).exists = true;
+    }
     let start = hist.model.client(c);
-    let resolve = |b: &BId| -> Uuid {
+    let start2 = hist.model.client(c2);
+    let resolve_in = |start: &MClient, b: &BId| -> Uuid {
         match b {
             BId::Nil => Uuid::nil(),
             BId::Latest => start.latest(),
@@ -150,6 +168,9 @@ pub fn execute(cc: &CCase) -> Result<Exec, Fail> {
     for t in 0..n {
         let inner = inner_for(t).map_err(sv)?;
         let wrapped: Arc<dyn Storage> = Arc::new(SchedStorage { release_on_commit: cc.conf != Conf::Mem, tid: t, inner: inner.clone(), gates: gates.clone() });
+        let is_second = cc.second.get(t).copied().unwrap_or(false);
+        let c = if is_second { c2 } else { c };
+        let resolve = |b: &BId| resolve_in(if is_second { &start2 } else { &start }, b);
         let reqs: Vec<(BReq, Uuid, Arc<Vec<u8>>)> = cc.batch[t]
             .iter()
             .map(|r| match r {
@@ -200,7 +221,7 @@ pub fn execute(cc: &CCase) -> Result<Exec, Fail> {
     let _keep = dir;
     // move the temp dir into the history's driver so it lives as long as the inspection
     hist.drv.dir = _keep;
-    Ok(Exec { log, results, start, hist })
+    Ok(Exec { log, results, start, start2, hist })
 }
 
 /// Does `resp` fit request `req` executed on state `m`?  Returns the possible successor states.
@@ -662,7 +683,7 @@ pub fn canonical(tier: Tier) -> Vec<CCase> {
                                 cfg: Cfg { snapshot_days: 14, snapshot_versions: 2 },
                                 batch: vec![vec![a.clone()], vec![b.clone()]],
                                 choices: vec![],
-                                probes: if probe { vec![true; 12] } else { vec![] },
+                                probes: if probe { vec![true; 12] } else { vec![] }, second: vec![]
                             });
                         }
                     }
@@ -677,7 +698,7 @@ pub fn canonical(tier: Tier) -> Vec<CCase> {
                         cfg: Cfg { snapshot_days: 14, snapshot_versions: 2 },
                         batch: vec![vec![av(1)], vec![av(2)], vec![av(3)]],
                         choices: vec![],
-                        probes: vec![],
+                        probes: vec![], second: vec![]
                     });
                 }
             }
@@ -719,7 +740,7 @@ fn ccase() -> BoxedStrategy<CCase> {
                 None => (vec![], Cfg { snapshot_days: 2, snapshot_versions: 2 }),
                 Some(c) => (c.ops.into_iter().filter(|o| !matches!(o, Op::Reopen)).collect(), c.cfg),
             };
-            CCase { conf, via, prefix, cfg, batch, choices, probes }
+            CCase { conf, via, prefix, cfg, batch, choices, probes, second: vec![] }
         })
         .boxed()
 }
@@ -918,7 +939,7 @@ fn c11_batches(tier: Tier) -> Vec<CCase> {
                     if tier == Tier::Quick && conf == Conf::Sqlite1 && (bi == 2 || pi == 1) {
                         continue;
                     }
-                    out.push(CCase { conf, via, prefix: prefix.clone(), cfg: Cfg { snapshot_days: 14, snapshot_versions: 2 }, batch, choices: vec![], probes: vec![] });
+                    out.push(CCase { conf, via, prefix: prefix.clone(), cfg: Cfg { snapshot_days: 14, snapshot_versions: 2 }, batch, choices: vec![], probes: vec![], second: vec![] });
                 }
             }
         }
@@ -940,6 +961,195 @@ pub fn c11_overlap_subrun(rep: &mut Report, tier: Tier) {
 pub fn c11_replay(case_json: &Value, st: &mut Stats) -> CheckResult {
     let cc: CCase = serde_json::from_value(case_json.clone()).map_err(|e| Fail::Inconclusive(format!("bad replay file: {e}")))?;
     c11_all_schedules(&cc, st)
+}
+
+// ---------------------------------------------------------------------------------------------
+// Two clients at once.  Each thread speaks for one client, so what a client is answered must be
+// exactly what its own requests, one after the other, would be answered with nobody else around
+// (C09), and what was acknowledged to either must still be there afterwards (C07) - whatever the
+// interleaving of the two clients' storage transactions, lock probes included.
+
+pub fn two_clients_judge(cc: &CCase, ex: &mut Exec, st: &mut Stats) -> CheckResult {
+    st.check();
+    let what = describe(cc, ex);
+    let ids = [ex.hist.clients[0], *ex.hist.clients.get(1).unwrap_or(&ex.hist.clients[0])];
+    let mut finals: Vec<MClient> = vec![ex.start.clone(), ex.start2.clone()];
+    for (t, reqs) in cc.batch.iter().enumerate() {
+        let who = if cc.second.get(t).copied().unwrap_or(false) { 1 } else { 0 };
+        let m = &mut finals[who];
+        for (k, r) in reqs.iter().enumerate() {
+            let Some((id, data, out)) = ex.results[t].get(k) else {
+                return v(format!("request T{t}.{k} of client #{who} got no answer: {what}"));
+            };
+            let bad = |want: String| -> CheckResult { v(format!("client #{who}: request T{t}.{k} {}({id}) was answered {} with the other client's requests overlapping; on its own it is answered {want}: {what}", r.kind(), out.short())) };
+            match r {
+                BReq::AddVersion { .. } => match (m.predict_add_version(*id), out) {
+                    (AvPred::Accept, Outcome::Accepted { id: nid, .. }) => m.apply_accept(*nid, *id, data.clone()),
+                    (AvPred::Conflict(l), Outcome::Conflict { latest }) if *latest == l => {}
+                    (p, _) => return bad(format!("{p:?}")),
+                },
+                BReq::GetChild { .. } => {
+                    let ok = match (m.predict_get_child(*id), out) {
+                        (GcPred::Found(i), Outcome::Found { id: fid, parent, data }) => *fid == m.chain[i].id && *parent == m.chain[i].parent && **data == *m.chain[i].data,
+                        (GcPred::NotFound, Outcome::NotFound) | (GcPred::Gone, Outcome::Gone) | (GcPred::NoSuchClient, Outcome::NoSuchClient) => true,
+                        (GcPred::NoSuchClient, Outcome::NotFound) => cc.via == Via::Http,
+                        _ => false,
+                    };
+                    if !ok {
+                        return bad(format!("{:?}", m.predict_get_child(*id)));
+                    }
+                }
+                BReq::AddSnapshot { .. } => match (m.predict_add_snapshot(*id), out) {
+                    (SnapPred::NoSuchClient, Outcome::NoSuchClient) => {}
+                    (SnapPred::Replace, Outcome::SnapshotOk) => m.apply_snapshot(*id, data.clone()),
+                    (SnapPred::Decline, Outcome::SnapshotOk) => {}
+                    (SnapPred::Either, Outcome::SnapshotOk) => return Err(Fail::Inconclusive("base-corner snapshot in a two-client batch".into())),
+                    (p, _) => return bad(format!("{p:?}")),
+                },
+                BReq::GetSnapshot => {
+                    let ok = match (&m.snap, out) {
+                        (None, Outcome::NoSnapshot) => true,
+                        (None, Outcome::NoSuchClient) => !m.exists,
+                        (None, Outcome::NotFound) => !m.exists && cc.via == Via::Http,
+                        (Some(s), Outcome::Snapshot { id, data }) => *id == s.version && **data == *s.data,
+                        _ => false,
+                    };
+                    if !ok {
+                        return bad(format!("{:?}", m.snap.as_ref().map(|s| s.version)));
+                    }
+                }
+            }
+        }
+    }
+    // afterwards: everything acknowledged to either client is still served, unaltered
+    for (who, m) in finals.iter().enumerate() {
+        let c = ids[who];
+        for (i, ver) in m.chain.iter().enumerate() {
+            match ex.hist.drv.get_child(c, ver.parent) {
+                Outcome::Found { id, parent, data } if id == ver.id && parent == ver.parent && *data == *ver.data => {}
+                o => return v(format!("client #{who}: acknowledged version {} (position {i} of {}, parent {}) reads back as {} after the two clients' requests overlapped: {what}", ver.id, m.chain.len(), ver.parent, o.short())),
+            }
+        }
+        if !m.chain.is_empty() {
+            match ex.hist.drv.get_child(c, m.latest()) {
+                Outcome::NotFound => {}
+                o => return v(format!("client #{who}: at its latest version {} GetChildVersion answers {} after the batch: {what}", m.latest(), o.short())),
+            }
+        }
+        match (&m.snap, ex.hist.drv.get_snapshot(c)) {
+            (None, Outcome::NoSnapshot) | (None, Outcome::NoSuchClient) | (None, Outcome::NotFound) => {}
+            (Some(s), Outcome::Snapshot { id, data }) if id == s.version && *data == *s.data => {}
+            (s, o) => return v(format!("client #{who}: snapshot after the batch is {}, expected {:?}: {what}", o.short(), s.as_ref().map(|s| s.version))),
+        }
+    }
+    let b = &ex.log.blocks;
+    let interleaved = (0..cc.batch.len()).any(|t| {
+        let pos: Vec<usize> = b.iter().enumerate().filter(|(_, x)| **x == t).map(|(i, _)| i).collect();
+        matches!((pos.first(), pos.last()), (Some(f), Some(l)) if b[*f..=*l].iter().any(|x| *x != t))
+    });
+    st.label(&format!("two-clients:{:?}/{:?}{}", cc.conf, cc.via, if cc.probes.is_empty() { "" } else { "/lock-probes" }));
+    let kinds: Vec<Vec<&str>> = cc.batch.iter().map(|t| t.iter().map(|r| r.kind()).collect()).collect();
+    if interleaved || !cc.probes.is_empty() {
+        st.nontrivial(&("two-clients", cc.conf, cc.via, kinds, b.clone(), cc.probes.len()));
+    }
+    Ok(())
+}
+
+fn two_clients_all_schedules(base: &CCase, st: &mut Stats) -> CheckResult {
+    let mut prefix: Vec<u16> = vec![];
+    let mut runs = 0usize;
+    loop {
+        let mut cc = base.clone();
+        cc.choices = prefix.clone();
+        let mut ex = execute(&cc)?;
+        if let Some(m) = &ex.log.inconclusive {
+            return Err(Fail::Inconclusive(format!("scheduler: {m}")));
+        }
+        let mut taken = ex.log.decisions.clone();
+        two_clients_judge(&cc, &mut ex, st).map_err(|f| match f {
+            Fail::Violation(m) => Fail::Violation(format!("schedule {:?}: {m}", cc.choices)),
+            o => o,
+        })?;
+        runs += 1;
+        if runs > 3000 {
+            return Err(Fail::Inconclusive("more than 3000 schedules".into()));
+        }
+        loop {
+            match taken.pop() {
+                None => return Ok(()),
+                Some((width, idx)) => {
+                    if idx + 1 < width {
+                        prefix = taken.iter().map(|(_, i)| *i as u16).collect();
+                        prefix.push((idx + 1) as u16);
+                        break;
+                    }
+                }
+            }
+        }
+    }
+}
+
+fn two_clients_batches(tier: Tier) -> Vec<CCase> {
+    use case::IdRef;
+    let prefix_existing = vec![
+        Op::AddVersion { c: 0, parent: IdRef::Nil, data: bs(10) },
+        Op::AddVersion { c: 0, parent: IdRef::Latest(0), data: bs(11) },
+        Op::AddVersion { c: 1, parent: IdRef::Fresh(100), data: bs(12) },
+        Op::AddVersion { c: 1, parent: IdRef::Latest(1), data: bs(13) },
+        Op::AddSnapshot { c: 1, version: IdRef::Ancestor(1, 1), data: bs(14) },
+    ];
+    let av = |p: BId, s: u32| BReq::AddVersion { parent: p, data: bs(s) };
+    let mut out = vec![];
+    for conf in [Conf::Mem, Conf::Sqlite1, Conf::SqliteN] {
+        for via in [Via::Http, Via::Lib] {
+            for existing in [false, true] {
+                let first = if existing { BId::Latest } else { BId::Nil };
+                let mut batches: Vec<Vec<Vec<BReq>>> = vec![
+                    vec![vec![av(first.clone(), 1)], vec![av(first.clone(), 2)]],
+                    vec![vec![av(first.clone(), 3), BReq::GetChild { parent: first.clone() }], vec![av(first.clone(), 4), BReq::GetSnapshot]],
+                ];
+                if existing {
+                    batches.push(vec![vec![av(BId::Latest, 5)], vec![BReq::AddSnapshot { version: BId::Latest, data: bs(6) }, BReq::GetSnapshot]]);
+                    batches.push(vec![vec![BReq::AddSnapshot { version: BId::Latest, data: bs(7) }], vec![BReq::AddSnapshot { version: BId::Latest, data: bs(8) }]]);
+                    batches.push(vec![vec![BReq::GetChild { parent: BId::Ancestor(1) }, BReq::GetSnapshot], vec![av(BId::Latest, 9), BReq::AddSnapshot { version: BId::Ancestor(1), data: bs(15) }]]);
+                }
+                for (bi, batch) in batches.into_iter().enumerate() {
+                    for probe in [false, true] {
+                        if tier == Tier::Quick && conf == Conf::Sqlite1 && bi >= 2 {
+                            continue;
+                        }
+                        out.push(CCase {
+                            conf,
+                            via,
+                            prefix: if existing { prefix_existing.clone() } else { vec![] },
+                            cfg: Cfg { snapshot_days: 14, snapshot_versions: 2 },
+                            batch: batch.clone(),
+                            choices: vec![],
+                            probes: if probe { vec![true; 16] } else { vec![] },
+                            second: vec![false, true],
+                        });
+                    }
+                }
+            }
+        }
+    }
+    out
+}
+
+/// Sub-run of the C07 and C09 checks: all schedules of two clients' overlapping requests.
+pub fn two_clients_subrun(id: &'static str, rep: &mut Report, tier: Tier) {
+    let r = engine::replay_dir::<CCase, _>(id, "two-clients", two_clients_all_schedules);
+    rep.absorb("replay-tier-two-clients", r);
+    if rep.failed() {
+        return;
+    }
+    let r = engine::enumerate(id, "two-clients", two_clients_batches(tier), two_clients_all_schedules);
+    rep.absorb("two-clients-overlapping-all-schedules", r);
+}
+
+pub fn two_clients_replay(case_json: &Value, st: &mut Stats) -> CheckResult {
+    let cc: CCase = serde_json::from_value(case_json.clone()).map_err(|e| Fail::Inconclusive(format!("bad replay file: {e}")))?;
+    two_clients_all_schedules(&cc, st)
 }
 
 // ---------------------------------------------------------------------------------------------
@@ -1059,7 +1269,7 @@ fn c01_batches(tier: Tier) -> Vec<CCase> {
                     batches.push(vec![vec![av(&first, 8)], vec![av(&first, 9)], vec![av(&first, 10)]]);
                 }
                 for batch in batches {
-                    out.push(CCase { conf, via, prefix: if existing { prefix_existing.clone() } else { vec![] }, cfg: Cfg { snapshot_days: 14, snapshot_versions: 2 }, batch, choices: vec![], probes: vec![] });
+                    out.push(CCase { conf, via, prefix: if existing { prefix_existing.clone() } else { vec![] }, cfg: Cfg { snapshot_days: 14, snapshot_versions: 2 }, batch, choices: vec![], probes: vec![], second: vec![] });
                 }
             }
         }
